@@ -8,6 +8,7 @@ CONSTANTS
   ClVals = {1, 3}
   ChunkIds = {0, 1, 2}
   MaxBody = 2
+  InmVersions = {"1.1"}
   Prune = TRUE
   MaxHdr = 2
 CONSTRAINT StateBound
